@@ -24,19 +24,20 @@ import (
 )
 
 type Scenario struct {
-	Mode     string   `json:"mode"` // unfold | encode
-	Format   string   `json:"format"`
-	Target   string   `json:"target_type"`
-	Docs     []string `json:"docs_hex,omitempty"`
-	Entry    string   `json:"entry,omitempty"`
-	Cuts     [][]int  `json:"per_doc_cuts,omitempty"`
-	Reads    []int    `json:"read_sizes,omitempty"`
-	BufSize  int      `json:"bufsize,omitempty"`
-	GCAt     [][]int  `json:"gc_at_events,omitempty"`
-	KeyCache int      `json:"key_cache,omitempty"`
-	Methods  []string `json:"methods_on_one_parser,omitempty"` // entry "mixed"
-	Reset    bool     `json:"reset_between_docs,omitempty"`
-	Value    string   `json:"go_value,omitempty"`
+	Mode        string   `json:"mode"` // unfold | encode
+	Format      string   `json:"format"`
+	Target      string   `json:"target_type"`
+	Docs        []string `json:"docs_hex,omitempty"`
+	Entry       string   `json:"entry,omitempty"`
+	Cuts        [][]int  `json:"per_doc_cuts,omitempty"`
+	Reads       []int    `json:"read_sizes,omitempty"`
+	BufSize     int      `json:"bufsize,omitempty"`
+	GCAt        [][]int  `json:"gc_at_events,omitempty"`
+	KeyCache    int      `json:"key_cache,omitempty"`
+	Methods     []string `json:"methods_on_one_parser,omitempty"` // entry "mixed"
+	Reset       bool     `json:"reset_between_docs,omitempty"`
+	Value       string   `json:"go_value,omitempty"`
+	UserFolders int      `json:"user_folders,omitempty"` // model.FolderOpts variant (encode mode)
 }
 
 type Engine struct{}
@@ -352,7 +353,20 @@ func encodeGC(c *simkit.Choices, x *simkit.Ctx) *simkit.Violation {
 	te := model.PickType(c, false, false, false)
 	val := te.Gen(c)
 	sc := &Scenario{Mode: "encode", Format: string(f), Target: te.Name, Value: model.Render(val)}
-	n := len(reuse.RecordFold(val))
+	if c.N(3) == 0 {
+		sc.UserFolders = 1 + c.N(model.NumFolderVariants-1)
+	}
+	fopts := model.FolderOpts(sc.UserFolders)
+	n := 0
+	{
+		cnt := simkit.NewTap(nil)
+		cnt.NoRecord = true
+		var cerr error
+		if pi := simkit.Guard(func() { cerr = gotype.Fold(val, cnt, fopts...) }); pi != nil || cerr != nil {
+			return nil
+		}
+		n = cnt.Count
+	}
 	if n == 0 {
 		return nil
 	}
@@ -363,7 +377,7 @@ func encodeGC(c *simkit.Choices, x *simkit.Ctx) *simkit.Violation {
 	sc.GCAt = [][]int{gcAt}
 	simkit.SetCurrent(sc)
 	st.Eval(1)
-	st.Distinct(simkit.NewDigest().Str("enc" + string(f) + te.Name).Str(sc.Value).Ints(gcAt).Sum())
+	st.Distinct(simkit.NewDigest().Str("enc" + string(f) + te.Name).Str(sc.Value).Ints(gcAt).Int(sc.UserFolders).Sum())
 	run := func(gc bool) ([]byte, error, *simkit.PanicInfo) {
 		w := simkit.NewWriter()
 		w.Clock = &x.Clock
@@ -389,7 +403,7 @@ func encodeGC(c *simkit.Choices, x *simkit.Ctx) *simkit.Violation {
 				tap.NoRecord = true
 				vs = tap
 			}
-			err = gotype.Fold(val, vs)
+			err = gotype.Fold(val, vs, fopts...)
 		})
 		return w.Buf, err, pi
 	}
